@@ -24,22 +24,78 @@ def render_rules(rules):
     return "\n".join(out)
 
 
+def _glob_tokens(pat):
+    """POSIX fnmatch pattern (flags 0) -> list of ('*',) / ('?',) / ('lit', ch) / ('set', negate, [(lo, hi)...]); None if malformed here."""
+    toks = []
+    i, n = 0, len(pat)
+    while i < n:
+        c = pat[i]
+        if c == "*":
+            toks.append(("*",))
+        elif c == "?":
+            toks.append(("?",))
+        elif c == "\\":
+            if i + 1 >= n:
+                return None          # trailing backslash: not generated
+            i += 1
+            toks.append(("lit", pat[i]))
+        elif c == "[":
+            j = i + 1
+            neg = False
+            if j < n and pat[j] in "!^":
+                neg = True
+                j += 1
+            items = []
+            first = True
+            while j < n and (pat[j] != "]" or first):
+                first = False
+                lo = pat[j]
+                if lo == "\\" and j + 1 < n:
+                    j += 1
+                    lo = pat[j]
+                if j + 2 < n and pat[j + 1] == "-" and pat[j + 2] != "]":
+                    items.append((lo, pat[j + 2]))
+                    j += 3
+                else:
+                    items.append((lo, lo))
+                    j += 1
+            if j >= n:
+                toks.append(("lit", "["))   # no closing bracket: '[' stands for itself
+            else:
+                toks.append(("set", neg, items))
+                i = j
+        else:
+            toks.append(("lit", c))
+        i += 1
+    return toks
+
+
 def glob_match(pat, s):
-    """Literals, * and ? only (own matcher, not fnmatch)."""
-    # dynamic programming
-    n, m = len(pat), len(s)
+    """fnmatch(pat, s, 0) for the patterns the generators produce: literals, *, ?, [...] with ranges and !/^ negation, backslash
+    escapes (own matcher; no locale classes)."""
+    toks = _glob_tokens(pat)
+    if toks is None:
+        raise ValueError("model cannot read glob %r" % pat)
+    m = len(s)
     dp = [False] * (m + 1)
     dp[0] = True
-    for i in range(1, n + 1):
+    for t in toks:
         new = [False] * (m + 1)
-        c = pat[i - 1]
-        if c == "*":
+        if t[0] == "*":
             new[0] = dp[0]
             for j in range(1, m + 1):
                 new[j] = dp[j] or new[j - 1]
         else:
             for j in range(1, m + 1):
-                new[j] = dp[j - 1] and (c == "?" or c == s[j - 1])
+                ch = s[j - 1]
+                if t[0] == "?":
+                    ok = True
+                elif t[0] == "lit":
+                    ok = ch == t[1]
+                else:
+                    inside = any(lo <= ch <= hi for lo, hi in t[2])
+                    ok = inside != t[1]
+                new[j] = dp[j - 1] and ok
         dp = new
     return dp[m]
 
